@@ -108,7 +108,7 @@ def extra_checks(tier, seed):
             ks = sorted(rng.sample(ks, 6))
         for k in ks:
             cc = copy.deepcopy(c)
-            cc['env']['bypos'][k] = (bool(items[k][6]), (3 + (k + i) % 2, 7), [])
+            cc['env']['bypos'][k] = (bool(items[k][6]), flat.pick_exn(k + i), [])
             cc['cls'] = ['HierarchicalMachine', 'LockedHierarchicalMachine', 'HierarchicalGraphMachine'][(i + k) % 3]
             cc['crash'] = k
             cases.append(cc)
@@ -153,7 +153,7 @@ def async_hier_stream(tier, seed):
             ks = sorted(rng.sample(ks, 5))
         for k in ks:
             cc = copy.deepcopy(c)
-            cc['env']['bypos'][k] = (bool(items[k][6]), (3 + (k + i) % 2, 7), [])
+            cc['env']['bypos'][k] = (bool(items[k][6]), flat.pick_exn(k + i), [])
             cc['cls'] = ['HierarchicalAsyncMachine', 'HierarchicalAsyncGraphMachine'][(i + k) % 2]
             cc['crash'] = k
             cases.append(cc)
@@ -190,7 +190,7 @@ def survivor_stream(tier, seed):
         c['queued'] = rng.choice([False, True, 'model'] if 'Async' in cls else [False, True])
         ncb = max([1] + [cb for _, ts in c['machine']['events'] for t in ts for cb in t['prepare'] + t['before'] + t['after'] + [x for x, _ in t['conds']]])
         c['crash_cb'] = rng.randint(1, max(1, ncb + 6))
-        c['crash_exn'] = (3 + i % 2, 5)
+        c['crash_exn'] = flat.pick_exn(i)
         c['split'] = rng.randint(1, len(c['history']) - 1)
         cases.append(c)
     obs = F.run_impl('flat', 'impl_survivor', cases)
